@@ -166,6 +166,27 @@ func genWorld(r *rand.Rand) *world {
 		w.Services = append(w.Services, s)
 	}
 
+	// a namespace whose NAME merely starts with another namespace's name ("ns1" / "ns10", as "prod" / "prod-canary"):
+	// a same-named Kubernetes service there must not be taken for a service of the shorter namespace when short
+	// names are resolved
+	if chance(r, 35) {
+		for _, s := range w.Services {
+			if s.K8s && s.NS == "ns1" {
+				n := strings.SplitN(s.Host, ".", 2)[0]
+				h := fmt.Sprintf("%s.ns10.svc.%s", n, domainSuffix)
+				if !seen[h] {
+					seen[h] = true
+					c := *s
+					c.NS, c.Host = "ns10", h
+					c.Ports = append([]int{}, s.Ports...)
+					c.Subsets = nil
+					w.Services = append(w.Services, &c)
+				}
+				break
+			}
+		}
+	}
+
 	// gateways
 	ingressSel := map[string]string{"istio": "ingressgateway"}
 	ngw := 1 + r.Intn(2)
